@@ -95,7 +95,7 @@ def load_known():
     return json.load(open(p))
 
 
-def run_check(check, tier="quick", seed=0, workers=None, replay=None, log=sys.stdout, partial_budget_s=0):
+def run_check(check, tier="quick", seed=0, workers=None, replay=None, log=sys.stdout, partial_budget_s=0, extra_cov=None):
     """partial_budget_s > 0: explore for at most that long; a truncated exploration without violation is reported as such (exit 0,
     evidence `exhaustive: false`), used for the deeper level of the thorough tier after the quick bounds were explored exhaustively"""
     global _W, _C, _OPTS
@@ -300,6 +300,7 @@ def run_check(check, tier="quick", seed=0, workers=None, replay=None, log=sys.st
         "partial_level": partial,
         "explanation": "bounded symbolic execution of the crate's MIR (regenerated from the current tree); every path closed by z3; counterexamples replayed natively",
     }
+    if extra_cov: cov.update(extra_cov)
     write_evidence(ev_path, pid, tier, seed, cov, check.assumptions, wall, len(confirmed))
     say(f"[{pid}] {cov['verdict']} (exit {rc}) wall {wall:.1f}s")
     return rc
